@@ -24,6 +24,9 @@ type Profile struct {
 	Responses        bool // @Response / @ErrorResponse / custom error types
 	SlashNoise       bool // doubled / missing / trailing slashes in templates
 	TrailingSlash    bool
+	PrefixParams     bool // controller prefixes may carry {params} that every method binds with @Path
+	DupWire          bool // two parameters of one location may share a wire name
+	PtrPathParams    bool // path parameters may be declared as pointers
 	RichValidators   bool // draw validators from the whole vocabulary both spec converters understand
 	VarySchemes      bool // draw the security scheme catalogue of the configuration
 	UndeclaredScheme bool // sometimes let routes name a scheme the configuration does not declare
@@ -219,6 +222,11 @@ func GenProject(t *rapid.T, pf Profile) *Project {
 				c.Route += "/"
 			}
 		}
+		prefixParam := ""
+		if pf.PrefixParams && c.HasRoute && rapid.IntRange(0, 2).Draw(t, "prefixParam") == 0 {
+			prefixParam = "tenant"
+			c.Route = strings.TrimSuffix(c.Route, "/") + "/{tenant}"
+		}
 		prefixes = append(prefixes, c.Route)
 		if pf.Security {
 			c.Security = genSec(t, "ctrlSec", secNames)
@@ -306,7 +314,28 @@ func GenProject(t *rapid.T, pf Profile) *Project {
 					m.Params = append(m.Params, prm)
 				}
 			}
+			if prefixParam != "" {
+				m.Params = append(m.Params, Param{Name: prefixParam, In: "path", Type: Prim("string")})
+			}
+			if pf.PtrPathParams {
+				for i := range m.Params {
+					if m.Params[i].In == "path" && rapid.IntRange(0, 3).Draw(t, "ptrPath") == 0 {
+						m.Params[i].Type = Ptr(m.Params[i].Type)
+					}
+				}
+			}
 			genExtraParams(t, pf, m, types)
+			if pf.DupWire && rapid.IntRange(0, 5).Draw(t, "dupWire") == 0 {
+				var q []int
+				for i, prm := range m.Params {
+					if prm.In == "query" {
+						q = append(q, i)
+					}
+				}
+				if len(q) >= 2 {
+					m.Params[q[1]].Wire = m.Params[q[0]].WireName()
+				}
+			}
 			if pf.Hidden {
 				m.Hidden = rapid.IntRange(0, 3).Draw(t, "hidden") == 0
 			}
